@@ -264,7 +264,7 @@ def cmd_logger(draw):
         elif k == "keep":
             t = "keep " + ("many" if bad else draw(st.sampled_from(["0", "2", "5"])))
         elif k == "cycle":
-            t = "cycle " + ("daily" if bad else draw(st.sampled_from(["0", "10", "3600.5"])))
+            t = "cycle " + ("daily" if bad else draw(st.sampled_from(["0", "10", "3600.5", "0.03125", "0.0625"])))
         elif k == "size":
             t = "size " + ("huge" if bad else draw(st.sampled_from(["0", "512", "4096"])))
         else:
@@ -1045,8 +1045,12 @@ def addr_program(draw):
                     forms += [f1, f2]
                     lines.append([6, ["set"] + r1 + ["from"] + r2])
                 elif k == "go":
+                    ctx["last"] = []
                     r1, f1 = draw(addr_ref(ctx))
                     forms.append(f1)
+                    if ctx["last"]:
+                        # the state share of the first need of the transition (a nested act: cloned with the frame)
+                        direct.append([len(lines), ns, [["need0", ctx["last"][0]]]])
                     far = draw(st.sampled_from((["next"] if j + 1 < len(frames[i]) else []) + ["me"] +
                                                ["{%s}" % s for s in frames[i]]))
                     t = ["go", far, "if"] + r1 + ["==", "1"]
